@@ -194,6 +194,19 @@ Qed.
 Lemma event_time_range_ended s e a b he : before_end a e = false -> match_event_time_range s e a b he = false.
 Proof. intros H. unfold match_event_time_range. rewrite H. reflexivity. Qed.
 
+(** ascending: every element is at most every later one *)
+Lemma ascending_cons x rest :
+  ascending (x :: rest) = true ->
+  forallb (fun y => (x <=? y)%Z) rest = true /\ ascending rest = true.
+Proof.
+  revert x. induction rest as [|y rest IH]; intros x H; [split; reflexivity|].
+  change (ascending (x :: y :: rest)) with ((x <=? y)%Z && ascending (y :: rest)) in H.
+  apply Bool.andb_true_iff in H. destruct H as [Hxy Hr]. split; [|exact Hr].
+  destruct (IH y Hr) as [Hall _]. cbn [forallb]. rewrite Hxy. cbn [andb].
+  apply forallb_forall. intros z Hz. rewrite forallb_forall in Hall. specialize (Hall z Hz).
+  apply Z.leb_le in Hxy, Hall. apply Z.leb_le. lia.
+Qed.
+
 (** the loop over the iterator finds an overlapping instance iff there is one,
     given that the iterator yields in ascending order (and, for a list cut at a
     horizon, that the cut cannot matter) *)
@@ -206,7 +219,7 @@ Lemma rec_loop_exists s e d he hz seq :
 Proof.
   induction seq as [|i rest IH]; intros Hasc Hcut.
   - cbn [rec_loop existsb]. destruct Hcut as [->|[[h [e' [-> [-> Hle]]]]|H]]; [reflexivity | rewrite Hle; reflexivity | discriminate].
-  - cbn [ascending] in Hasc. apply Bool.andb_true_iff in Hasc. destruct Hasc as [Hle Hasc].
+  - apply ascending_cons in Hasc. destruct Hasc as [Hle Hasc].
     cbn [rec_loop existsb].
     destruct (before_end i e) eqn:Hbe; cbn [negb].
     + destruct (match_event_time_range s e i (i + d) he) eqn:Hm; [reflexivity|].
